@@ -81,7 +81,7 @@ func (c *fctx) rangeStmt() []*S {
 	}
 	opts := []opt{}
 	if cfg.Ranges {
-		opts = append(opts, opt{"slice", 5}, opt{"array", 3}, opt{"string", 4}, opt{"map", 3}, opt{"chan", 2}, opt{"int", 4}, opt{"small", 1}, opt{"mapnan", 1}, opt{"bound", 1}, opt{"assignidx", 1})
+		opts = append(opts, opt{"slice", 5}, opt{"array", 3}, opt{"string", 4}, opt{"map", 3}, opt{"chan", 2}, opt{"int", 4}, opt{"small", 1}, opt{"mapnan", 1}, opt{"bound", 1}, opt{"assignidx", 1}, opt{"intcapture", 1})
 	}
 	if cfg.Consume {
 		opts = append(opts, opt{"iter", 6}, opt{"pull", 3})
@@ -96,6 +96,29 @@ func (c *fctx) rangeStmt() []*S {
 	kind := opts[r.Pick(ws)].name
 	c.g.mark("range_" + kind)
 	c.g.needHelpers = true
+	if kind == "intcapture" {
+		// the variable of a range over an integer is a fresh variable per iteration (the
+		// construct exists only with Go >= 1.22 semantics): closures and nested generators
+		// created in the body and used AFTER the loop each see their own value
+		if !c.gen || c.inLit {
+			text := fmt.Sprintf("var fs9 []func() int\nfor k9 := range 3 {\n\tfs9 = append(fs9, func() int { return k9*10 + 1 })\n}\nfor _, f9 := range fs9 {\n\tvrt.E(%d, f9())\n}", c.g.nextTag())
+			return []*S{{K: SRaw, ID: c.g.id(), Src: "{\n\t" + replaceAll(text, "\n", "\n\t") + "\n}"}}
+		}
+		n := r.Range(2, 3)
+		var src, ref string
+		if r.Bool() {
+			src = fmt.Sprintf("var fs9 []func() int\nfor k9 := range %d {\n\tfs9 = append(fs9, func() int { return k9*10 + 1 })\n\t«Yield»(100 + k9)\n}\nfor _, f9 := range fs9 {\n\t«Yield»(f9())\n}", n)
+		} else {
+			src = fmt.Sprintf("var its9 []«Iter[int]»\nfor k9 := range %d {\n\tits9 = append(its9, func() «Iter[int]» {\n\t\t«Yield»(k9)\n\t\t«Yield»(k9 * 10)\n\t\treturn nil\n\t}())\n\t«Yield»(100 + k9)\n}\nfor _, it9 := range its9 {\n\tfor it9.MoveNext() {\n\t\t«Yield»(it9.Current())\n\t}\n}", n)
+			ref = fmt.Sprintf("var its9 []«Iter[int]»\nfor k9 := range %d {\n\tits9 = append(its9, func() «Iter[int]» {\n\t\treturn refco.Go(func(ʏ *refco.Y[int]) {\n\t\t\tʏ.Yield(k9)\n\t\t\tʏ.Yield(k9 * 10)\n\t\t})\n\t}())\n\t«Yield»(100 + k9)\n}\nfor _, it9 := range its9 {\n\tfor it9.MoveNext() {\n\t\t«Yield»(it9.Current())\n\t}\n}", n)
+		}
+		wrap := func(t string) string { return "{\n\t" + replaceAll(t, "\n", "\n\t") + "\n}" }
+		st := &S{K: SRaw, ID: c.g.id(), Src: wrap(src)}
+		if ref != "" {
+			st.Ref = wrap(ref)
+		}
+		return []*S{st}
+	}
 	if kind == "assignidx" {
 		// '=' form whose VALUE operand reads the KEY variable: 'for k, dst[k] = range x' is one
 		// tuple assignment per iteration, the index is taken before k is updated
